@@ -519,14 +519,6 @@ func c06R3(c *Ctx) {
 // the letters are exactly those the trigger grammar admits.
 func c06Dispatch(c *Ctx) {
 	f := c.fn("TrzszFilter.handleTrzsz$1")
-	modeIs := func(k int64, val bool) assumption {
-		return assumption{val: val, cmp: func(op token.Token, x, y ssa.Value) (bool, bool) {
-			if (op != token.EQL && op != token.NEQ) || !isFieldLoad("mode")(x) || !isConstIntV(k)(y) {
-				return false, false
-			}
-			return true, op == token.EQL
-		}}
-	}
 	type want struct {
 		letter   byte
 		callee   string
@@ -534,10 +526,7 @@ func c06Dispatch(c *Ctx) {
 	}
 	wants := []want{{'S', "(*trzsz.TrzszFilter).downloadFiles", -1}, {'R', "(*trzsz.TrzszFilter).uploadFiles", 0}, {'D', "(*trzsz.TrzszFilter).uploadFiles", 1}}
 	for _, w := range wants {
-		var as []assumption
-		for _, o := range wants {
-			as = append(as, modeIs(int64(o.letter), o.letter == w.letter))
-		}
+		as := []assumption{valueIs(isFieldLoad("mode"), int64(w.letter))}
 		reach := blocksUnder(f, as)
 		n, good := 0, true
 		for _, ci := range callsIn(f, idIs("(*trzsz.TrzszFilter).downloadFiles", "(*trzsz.TrzszFilter).uploadFiles")) {
